@@ -188,24 +188,26 @@ func Parse(spec string, lay Layout) Result {
 		return parseDescriptor(rest, sch)
 	}
 	// space-separated fields
-	var toks []string
-	cur := ""
+	toks := make([]string, 0, 8)
+	from := -1
 	for i := 0; i <= len(rest); i++ {
 		if i == len(rest) || rest[i] == ' ' {
-			if cur != "" {
-				toks = append(toks, cur)
-				cur = ""
+			if from >= 0 {
+				toks = append(toks, rest[from:i])
+				from = -1
 			}
 			continue
 		}
-		cur += string(rest[i])
+		if from < 0 {
+			from = i
+		}
 	}
 	// which fields are expected?
 	type slot struct {
 		kind fieldKind
 		opt  bool
 	}
-	var slots []slot
+	slots := make([]slot, 0, 6)
 	if lay.Second != Absent {
 		slots = append(slots, slot{fSec, lay.Second == Optional})
 	}
